@@ -34,6 +34,7 @@ Sift Config:
 
 """
 
+import os
 import sys
 import copy
 import logging
@@ -53,6 +54,34 @@ from .support import ensure_1d_with_singleton, ensure_2d, EMDSiftCovergeError
 
 # Housekeeping for logging
 logger = logging.getLogger(__name__)
+
+
+##################################################################
+# Verification hooks - inactive unless AJQUINN_EMD_MIRROR_VERIF=1 is set before import.
+# They only report the options each stage received (and the noise each ensemble member added)
+# to an in-process sink or to <AJQUINN_EMD_MIRROR_VERIF_TRACE>/<pid>.jsonl; behaviour is unchanged.
+
+_VERIF = os.environ.get('AJQUINN_EMD_MIRROR_VERIF') == '1'
+_verif_sink = None
+
+
+def _verif_trace(kind, **payload):
+    if _verif_sink is not None:
+        _verif_sink(kind, payload)
+        return
+    trace_dir = os.environ.get('AJQUINN_EMD_MIRROR_VERIF_TRACE')
+    if trace_dir:
+        import json
+
+        def _default(obj):
+            if isinstance(obj, np.ndarray):
+                return obj.tolist()
+            if isinstance(obj, np.generic):
+                return obj.item()
+            return repr(obj)
+        payload = dict(payload, kind=kind, pid=os.getpid())
+        with open(os.path.join(trace_dir, '{0}.jsonl'.format(os.getpid())), 'a') as f:
+            f.write(json.dumps(payload, default=_default) + '\n')
 
 
 ##################################################################
@@ -113,6 +142,11 @@ def get_next_imf(X, env_step_size=1, max_iters=1000, energy_thresh=None,
     emd.sift.interp_envelope
 
     """
+    if _VERIF:
+        _verif_trace('get_next_imf', env_step_size=env_step_size, max_iters=max_iters, energy_thresh=energy_thresh,
+                     stop_method=stop_method, sd_thresh=sd_thresh, rilling_thresh=rilling_thresh,
+                     envelope_opts=envelope_opts, extrema_opts=extrema_opts)
+
     X = ensure_1d_with_singleton([X], ['X'], 'get_next_imf')
 
     if envelope_opts is None:
@@ -549,6 +583,9 @@ def _sift_with_noise(X, noise_scaling=None, noise=None, noise_mode='single',
 
     if noise_scaling is not None:
         noise = noise * noise_scaling
+
+    if _VERIF:
+        _verif_trace('member_noise', job_ind=job_ind, noise=noise, noise_mode=noise_mode)
 
     ensX = X.copy() + noise
     imf = sift(ensX, sift_thresh=sift_thresh, max_imfs=max_imfs,
@@ -1238,6 +1275,10 @@ def get_padded_extrema(X, pad_width=2, mode='peaks', parabolic_extrema=False,
         Magnitude of each extrema
 
     """
+    if _VERIF:
+        _verif_trace('get_padded_extrema', pad_width=pad_width, mode=mode, parabolic_extrema=parabolic_extrema,
+                     loc_pad_opts=loc_pad_opts, mag_pad_opts=mag_pad_opts)
+
     if not loc_pad_opts:  # Empty dict evaluates to False
         loc_pad_opts = {'mode': 'reflect', 'reflect_type': 'odd'}
     else:
@@ -1394,6 +1435,9 @@ def interp_envelope(X, mode='upper', interp_method='splrep', extrema_opts=None,
         Interpolated amplitude envelope
 
     """
+    if _VERIF:
+        _verif_trace('interp_envelope', mode=mode, interp_method=interp_method, extrema_opts=extrema_opts)
+
     if not extrema_opts:  # Empty dict evaluates to False
         extrema_opts = {'pad_width': 2,
                         'loc_pad_opts': None,
